@@ -1022,10 +1022,15 @@ func (g *dumpGen) floatText(kind string) string {
 		return "0"
 	}
 	s := fmt.Sprintf("%de-%d", g.rng.Intn(999999)+1, g.rng.Intn(5))
+	bits := dumpKinds[kind].Bits()
+	if bits == 64 && g.rng.Intn(4) == 0 {
+		// a binary64 value of moderate size that needs more digits than a binary32 number carries (up to 15 significant
+		// digits, |x| < 10^9): as a field, as a slice element and as a map value it keeps all of them
+		s = fmt.Sprintf("%de-%d", g.rng.Int63n(999999999999999)+1, 6+g.rng.Intn(4))
+	}
 	if g.rng.Intn(2) == 0 {
 		s = "-" + s
 	}
-	bits := dumpKinds[kind].Bits()
 	f, _ := strconv.ParseFloat(s, bits)
 	cn, ok := dumpCanonNum(strconv.FormatFloat(f, 'f', -1, bits))
 	if !ok {
